@@ -62,9 +62,10 @@ def model_norm(shape, st):
     if k == "TSD" and st is not None:
         return {key: model_norm(shape[2], v) for key, v in st.items() if coll.is_valid(shape[2], v)}
     if k == "TSL":
-        return [model_norm(shape[1], c) for c in st]
+        return [model_norm(shape[1], c) if shape[1][0] != "TSW" or coll.is_valid(shape[1], c) else None for c in st]
     if k == "TSB":
-        return {f: model_norm(s, st[f]) for f, s in shape[1]}
+        # (a window field below its minimum count holds no value yet)
+        return {f: (model_norm(s, st[f]) if s[0] != "TSW" or coll.is_valid(s, st[f]) else None) for f, s in shape[1]}
     if k == "TSS" and st is not None:
         return set(st)
     return st
@@ -337,7 +338,8 @@ def check_coherence(sc, log):
                 if shape[0] == "TSD" and shape[2][0] in ("TSS", "TSD", "TSL", "TSB", "TSW") and isinstance(cur, dict) and isinstance(mm, dict):
                     rr = revived_keys(w, shape, t)
                     # (a window child that keeps its old pushes may also be valid earlier than a fresh one: the key sets may differ at the revived keys)
-                    if rr and {k: v for k, v in cur.items() if k not in rr} == {k: v for k, v in mm.items() if k not in rr} and (
+                    se = strip_empty if below_mirror else (lambda x: x)       # (below a mirror: finding F7 on top, owned by C20)
+                    if rr and se({k: v for k, v in cur.items() if k not in rr}) == se({k: v for k, v in mm.items() if k not in rr}) and (
                             set(cur) == set(mm) or shape[2][0] == "TSW"):
                         stats["known_F6"] = stats.get("known_F6", 0) + 1
                         replica = None
@@ -430,7 +432,7 @@ def check_record_replay(sc, log0, log1):
             wshape0 = coll.SHAPES[[w for w in sc["writers"] if w["id"] == int(rec["b1"].split("_")[1])][0]["shape"]]
         except (IndexError, ValueError, KeyError):
             wshape0 = None
-        dict_of_windows = wshape0 is not None and wshape0[0] == "TSD" and wshape0[2][0] == "TSW"
+        dict_of_windows = wshape0 is not None and window_below(wshape0)
         stats["recorded_ticks"] += sum(1 for x in b1 if x is not None)
         stats["probe_holes"] += sum(1 for x in b1 if x is None)
         for name, other in (("mirror", b1m), ("replay", b2)):
@@ -480,7 +482,7 @@ def check_record_replay(sc, log0, log1):
                 if strip_empty(norm_value(wshape, wo["val"])) == strip_empty(norm_value(wshape, e["o"]["val"])):
                     known = F7      # only difference: empty collections that are still invalid in the source
                     continue
-                if wshape[0] == "TSD" and wshape[2][0] == "TSW" and windows_are_suffixes(wo["val"], e["o"]["val"]):
+                if window_below(wshape) and windows_are_suffixes(wshape, wo["val"], e["o"]["val"]):
                     known = F12     # only difference: the copy's windows lack pushes made while the source window was below its minimum count
                     continue
                 return ("mirror_value", "t=%d applying the captured delta %s gives %s, the source holds %s" % (t, json.dumps(e["d"]), json.dumps(e["o"]["val"]), json.dumps(wo["val"]))), stats, known
@@ -491,24 +493,39 @@ F7 = "F7-captured-delta-validates-invalid-collection-child"
 F12 = "F12-capture-drops-pushes-to-a-dictionary-window-below-its-minimum-count"
 
 
+def window_below(shape):
+    """a tick-count window directly below a dictionary or a bundle"""
+    return (shape[0] == "TSD" and shape[2][0] == "TSW") or (shape[0] == "TSB" and any(s[0] == "TSW" for _, s in shape[1]))
+
+
 def window_entries_dropped(a, b):
-    """recording of a dictionary of windows: entry b of the copy's recording is entry a of the original with some window
-    pushes and removals missing (or missing altogether)"""
+    """recording of a dictionary / bundle holding windows: entry b of the copy's recording is entry a of the original with
+    some window pushes (and removals) missing, or missing altogether"""
     if a is None:
         return False
-    b = b if b is not None else {"removed": [], "modified": {}}
-    am, bm = a.get("modified", {}), b.get("modified", {})
-    return all(k in am and am[k] == v for k, v in bm.items()) and set(map(str, b.get("removed", []))) <= set(map(str, a.get("removed", [])))
+    if "modified" in a or "removed" in a:
+        b = b if b is not None else {"removed": [], "modified": {}}
+        am, bm = a.get("modified", {}), b.get("modified", {})
+        return all(k in am and am[k] == v for k, v in bm.items()) and set(map(str, b.get("removed", []))) <= set(map(str, a.get("removed", [])))
+    b = b if b is not None else {}
+    return all(v is None or (k in a and a[k] == v) for k, v in b.items())
 
 
-def windows_are_suffixes(src, copy):
-    """dictionary of windows: every window of the copy is a suffix of the source's window for that key (possibly empty or
-    missing), and the copy has no key the source lacks"""
-    if not isinstance(src, dict) or not isinstance(copy, dict) or not set(copy) <= set(src):
+def windows_are_suffixes(shape, src, copy):
+    """every window of the copy is a suffix of the source's window at the same place (possibly empty or missing); nothing
+    else differs and the copy has no entry the source lacks"""
+    def suffix(w, c):
+        w, c = w or [], c or []
+        return len(c) <= len(w) and (not c or w[len(w) - len(c):] == c)
+    if not isinstance(src, dict) or not isinstance(copy, dict):
         return False
-    for k, w in src.items():
-        c = copy.get(k, [])
-        if len(c) > len(w) or (c and w[len(w) - len(c):] != c):
+    if shape[0] == "TSD":
+        return set(copy) <= set(src) and all(suffix(w, copy.get(k)) for k, w in src.items())
+    for f, s in shape[1]:
+        if s[0] == "TSW":
+            if not suffix(src.get(f), copy.get(f)):
+                return False
+        elif src.get(f) != copy.get(f):
             return False
     return True
 
